@@ -9,23 +9,22 @@ Local Open Scope nat_scope.
 Definition len_ok (cap : option Q) (n : nat) : Prop :=
   match cap with Some c => (inject_Z (Z.of_nat n) <= c)%Q | None => True end.
 
-(* the capacity is a whole number (or infinite) *)
-Definition cap_integral (cap : option Q) : Prop :=
-  match cap with Some c => exists m : Z, c = inject_Z m /\ (0 <= m)%Z | None => True end.
+(* what the constructor enforces: capacity > 0 (or infinite) *)
+Definition cap_pos (cap : option Q) : Prop :=
+  match cap with Some c => (0 < c)%Q | None => True end.
 
-Lemma has_room_succ cap n : cap_integral cap -> has_room cap n = true -> len_ok cap (S n).
+Lemma has_room_succ cap n : has_room cap n = true -> len_ok cap (S n).
 Proof.
-  destruct cap as [c|]; cbn; [|auto]. intros (m & -> & _) H.
-  unfold Qlt_bool in H. apply negb_true_iff in H.
-  rewrite <- Zle_Qle.
-  destruct (Z_lt_le_dec (Z.of_nat n) m) as [Hl|Hl]; [lia|].
-  rewrite Zle_Qle in Hl. apply Qle_bool_iff in Hl. rewrite Hl in H. discriminate.
+  unfold has_room, len_ok. destruct cap as [c|]; [|auto]. intros H. apply Qle_bool_iff in H.
+  rewrite Nat2Z.inj_succ. unfold Z.succ. rewrite inject_Z_plus. exact H.
 Qed.
 
-Lemma has_room_false cap n : has_room cap n = false -> exists c, cap = Some c /\ (c <= inject_Z (Z.of_nat n))%Q.
+Lemma has_room_false cap n :
+  has_room cap n = false -> exists c, cap = Some c /\ (c < inject_Z (Z.of_nat n) + 1)%Q.
 Proof.
-  destruct cap as [c|]; cbn; [|discriminate]. intros H. exists c. split; [auto|].
-  unfold Qlt_bool in H. apply negb_false_iff in H. apply Qle_bool_iff in H. exact H.
+  unfold has_room. destruct cap as [c|]; [|discriminate]. intros H. exists c. split; [auto|].
+  destruct (Qlt_le_dec c (inject_Z (Z.of_nat n) + 1)) as [Hl|Hl]; [exact Hl|].
+  apply Qle_bool_iff in Hl. rewrite Hl in H. discriminate.
 Qed.
 
 (* ---------------------------------------------------------------------------------------------- *)
@@ -147,7 +146,7 @@ Arguments delivered {K A} vitem l.
 Section Stores.
   Variable A : Type.
   Variable cap : option Q.
-  Hypothesis Hcap : cap_integral cap.
+  Hypothesis Hcap : cap_pos cap.
 
   Let idA := fun x : A => x.
 
@@ -186,8 +185,7 @@ Section Stores.
 
   Lemma len_ok_0 : len_ok cap 0.
   Proof.
-    unfold len_ok. destruct cap as [c|] eqn:E; [|auto]. cbn in Hcap. destruct Hcap as (m & -> & Hm).
-    rewrite <- Zle_Qle. cbn. exact Hm.
+    unfold len_ok. destruct cap as [c|] eqn:E; [|auto]. cbn in Hcap. cbn. apply Qlt_le_weak. exact Hcap.
   Qed.
 
   Theorem store_bounded fixed (acts : list (action (Store A cap))) t0 s :
@@ -209,7 +207,7 @@ Section Stores.
   Theorem store_heads_blocked (acts : list (action (Store A cap))) t0 s t s' :
     run true (init (K:=Store A cap) [] t0) acts = Some s ->
     step true s (AAdvance t) = Some s' ->
-    (putq s <> [] -> exists c, cap = Some c /\ (c <= inject_Z (Z.of_nat (length (content s))))%Q) /\
+    (putq s <> [] -> exists c, cap = Some c /\ (c < inject_Z (Z.of_nat (length (content s))) + 1)%Q) /\
     (getq s <> [] -> content s = []).
   Proof.
     intros Hr Ha. apply advance_admissible in Ha.
@@ -280,7 +278,7 @@ Section Stores.
   Theorem filter_heads_blocked (acts : list (action (FilterStore A cap))) t0 s t s' :
     run true (init (K:=FilterStore A cap) [] t0) acts = Some s ->
     step true s (AAdvance t) = Some s' ->
-    (putq s <> [] -> exists c, cap = Some c /\ (c <= inject_Z (Z.of_nat (length (content s))))%Q) /\
+    (putq s <> [] -> exists c, cap = Some c /\ (c < inject_Z (Z.of_nat (length (content s))) + 1)%Q) /\
     (forall i f, In (i, f) (getq s) -> forall y, In y (content s) -> f y = false).
   Proof.
     intros Hr Ha. apply advance_admissible in Ha.
@@ -375,7 +373,7 @@ Section Prio.
   Variable A : Type.
   Variable key : A -> Z.
   Variable cap : option Q.
-  Hypothesis Hcap : cap_integral cap.
+  Hypothesis Hcap : cap_pos cap.
   Let KP := PriorityStore A key cap.
   Let idA := fun x : A => x.
 
@@ -460,7 +458,7 @@ Section Prio.
   Theorem prio_heads_blocked (acts : list (action KP)) t0 s t s' :
     run true (init (K:=KP) [] t0) acts = Some s ->
     step true s (AAdvance t) = Some s' ->
-    (putq s <> [] -> exists c, cap = Some c /\ (c <= inject_Z (Z.of_nat (length (content s))))%Q) /\
+    (putq s <> [] -> exists c, cap = Some c /\ (c < inject_Z (Z.of_nat (length (content s))) + 1)%Q) /\
     (getq s <> [] -> content s = []).
   Proof.
     intros Hr Ha. apply advance_admissible in Ha.
@@ -518,4 +516,25 @@ Example filter_example :
      @AGet K (fmod_ex 3 0); @ACancel K 0%nat; @AProcess K 6%nat; @AAdvance K 1%Q])
   = Some ([1; 4], [], [],
           [(2%nat, None); (3%nat, None); (4%nat, None); (5%nat, None); (1%nat, Some 2); (6%nat, Some 3)]).
+Proof. vm_compute. reflexivity. Qed.
+
+(* the capacity guard of the pinned commit (len(items) < capacity) lets a store of capacity 5/2 hold
+   three items; the repaired guard (fix: 2019701) stops at two *)
+Definition KU : kind := Store_unfixed Z (Some (5 # 2)%Q).
+Definition over_capacity_history : list (action KU) := [@APut KU 0; @APut KU 1; @APut KU 2].
+
+Lemma store_bounded_refuted_unfixed :
+  exists (acts : list (action KU)) (s : state KU),
+    run true (init (K:=KU) [] 0%Q) acts = Some s /\
+    ~ (inject_Z (Z.of_nat (length (content s))) <= 5 # 2)%Q.
+Proof.
+  exists over_capacity_history.
+  destruct (run true (init (K:=KU) [] 0%Q) over_capacity_history) as [s|] eqn:E; [|vm_compute in E; discriminate].
+  exists s. split; [reflexivity|]. vm_compute in E. injection E as <-. cbn. intros H. vm_compute in H. apply H. reflexivity.
+Qed.
+
+Example over_capacity_history_repaired :
+  let K := Store Z (Some (5 # 2)%Q) in
+  obs_of (run true (init (K:=K) [] 0%Q) [@APut K 0; @APut K 1; @APut K 2])
+  = Some ([0; 1], [2%nat], [], [(0%nat, None); (1%nat, None)]).
 Proof. vm_compute. reflexivity. Qed.
